@@ -765,3 +765,240 @@ fn body_vals(plan: &J) {
         fail("completion-count", format!("on_complete called {} times", completes.borrow().len()));
     }
 }
+
+// ------------------------------------------------------------------------------------------------
+// co_local (C25): coroutine-local storage histories with the coroutine dropped at an arbitrary point
+
+thread_local! {
+    static DROPS: RefCell<std::collections::BTreeMap<u64, u32>> = const { RefCell::new(std::collections::BTreeMap::new()) };
+}
+
+#[derive(Debug)]
+struct Val {
+    id: u64,
+    tag: u64,
+}
+
+impl Drop for Val {
+    fn drop(&mut self) {
+        DROPS.with(|d| *d.borrow_mut().entry(self.id).or_insert(0) += 1);
+    }
+}
+
+const KEYS: [&str; 5] = ["k0", "k1", "k2", "k3", "k4"];
+
+pub static LOCAL_SCENARIO: Scenario = Scenario {
+    name: "co_local",
+    about: "put/get/get_mut/remove histories over <=4 coroutines x <=5 keys, executed inside the bodies and through the handle, with each coroutine dropped at an arbitrary point (never started / suspended / finished)",
+    gen: gen_local,
+    body: body_local,
+    key_probes: &[],
+    wall_ms: 20_000,
+    chunk: 32,
+};
+
+fn gen_local(g: &mut Rng, tier: Tier) -> J {
+    let ncos = g.range(1, 4);
+    let nops = g.range(1, if tier == Tier::Quick { 40 } else { 120 });
+    let mut ops = Vec::new();
+    let mut id = 0u64;
+    for _ in 0..nops {
+        let c = g.below(ncos);
+        let k = g.below(5);
+        let inside = g.chance(2, 3);
+        match g.below(10) {
+            0..=3 => {
+                id += 1;
+                ops.push(J::Arr(vec!["put".into(), c.into(), k.into(), id.into(), inside.into()]));
+            }
+            4..=5 => ops.push(J::Arr(vec!["get".into(), c.into(), k.into(), 0u64.into(), inside.into()])),
+            6..=7 => ops.push(J::Arr(vec!["get_mut".into(), c.into(), k.into(), 0u64.into(), inside.into()])),
+            8 => ops.push(J::Arr(vec!["remove".into(), c.into(), k.into(), 0u64.into(), inside.into()])),
+            _ => ops.push(J::Arr(vec!["drop".into(), c.into(), g.below(2).into()])),
+        }
+    }
+    obj! {
+        "ncos" => ncos,
+        "ops" => J::Arr(ops),
+        "sim" => gen_sim(g, SimOpts { concurrent: false, max_points: 400_000, ..SimOpts::default() }),
+    }
+}
+
+/// (op, key, id) -> what happened, written by the body for "inside" ops
+type Mail = Rc<RefCell<Option<(String, usize, u64)>>>;
+type Reply = Rc<RefCell<Option<(Option<u64>, Option<u64>)>>>;
+
+fn do_op(l: &CoroutineLocal<'static>, op: &str, key: usize, id: u64) -> (Option<u64>, Option<u64>) {
+    // returns (id, tag) of the value returned/seen, if any
+    match op {
+        "put" => l.put(KEYS[key], Val { id, tag: 0 }).map_or((None, None), |v| (Some(v.id), Some(v.tag))),
+        "get" => l.get::<Val>(KEYS[key]).map_or((None, None), |v| (Some(v.id), Some(v.tag))),
+        "get_mut" => l.get_mut::<Val>(KEYS[key]).map_or((None, None), |v| {
+            v.tag += 1;
+            (Some(v.id), Some(v.tag))
+        }),
+        _ => l.remove::<Val>(KEYS[key]).map_or((None, None), |v| (Some(v.id), Some(v.tag))),
+    }
+}
+
+fn body_local(plan: &J) {
+    DROPS.with(|d| d.borrow_mut().clear());
+    let ncos = plan.gus("ncos").clamp(1, 4);
+    struct Slot {
+        co: Option<SchedulableCoroutine<'static>>,
+        mail: Mail,
+        reply: Reply,
+        model: std::collections::BTreeMap<usize, (u64, u64)>,
+        started: bool,
+    }
+    let mut slots: Vec<Slot> = Vec::new();
+    for i in 0..ncos {
+        let mail: Mail = Rc::new(RefCell::new(None));
+        let reply: Reply = Rc::new(RefCell::new(None));
+        let (m2, r2) = (mail.clone(), reply.clone());
+        let co = Coroutine::new(
+            Some(format!("local-{i}")),
+            move |s: &Suspender<'_, (), ()>, ()| {
+                loop {
+                    let job = m2.borrow_mut().take();
+                    match job {
+                        Some((op, key, id)) => {
+                            if op == "finish" {
+                                return Some(0);
+                            }
+                            let me = SchedulableCoroutine::current().expect("current");
+                            let r = do_op(me, &op, key, id);
+                            *r2.borrow_mut() = Some(r);
+                        }
+                        None => {}
+                    }
+                    s.suspend();
+                }
+            },
+            Some(64 * 1024),
+            None,
+        );
+        let Ok(co) = co else {
+            crate::child::harness_error("coroutine stack allocation failed".into());
+        };
+        slots.push(Slot {
+            co: Some(co),
+            mail,
+            reply,
+            model: std::collections::BTreeMap::new(),
+            started: false,
+        });
+    }
+    let mut expect_dropped: std::collections::BTreeSet<u64> = std::collections::BTreeSet::new();
+    let mut all_ids: Vec<u64> = Vec::new();
+    for (oi, op) in plan.ga("ops").iter().enumerate() {
+        let a = op.arr();
+        let kind = a[0].s().to_string();
+        let ci = a[1].us() % ncos;
+        if kind == "drop" {
+            let finish_first = a.get(2).is_some_and(|x| x.u() == 1);
+            let sl = &mut slots[ci];
+            if let Some(mut co) = sl.co.take() {
+                if finish_first {
+                    *sl.mail.borrow_mut() = Some(("finish".into(), 0, 0));
+                    for _ in 0..3 {
+                        if matches!(co.resume(), Ok(CoroutineState::Complete(_))) {
+                            probe("local.drop-finished");
+                            break;
+                        }
+                    }
+                } else if sl.started {
+                    probe("local.drop-suspended");
+                } else {
+                    probe("local.drop-never-started");
+                }
+                for (_, (id, _)) in std::mem::take(&mut sl.model) {
+                    _ = expect_dropped.insert(id);
+                }
+                drop(co);
+                // documented: values still stored are dropped with the coroutine
+                let d = DROPS.with(|d| d.borrow().clone());
+                for id in &expect_dropped {
+                    match d.get(id).copied().unwrap_or(0) {
+                        1 => {}
+                        0 => fail("not-released", format!("op {oi}: coroutine {ci} was dropped but value {id}, still stored in its local storage, was not dropped")),
+                        n => fail("double-drop", format!("op {oi}: value {id} dropped {n} times")),
+                    }
+                }
+            }
+            continue;
+        }
+        let (key, id, inside) = (a[2].us() % 5, a[3].u(), a[4].b());
+        let sl = &mut slots[ci];
+        let Some(co) = sl.co.as_mut() else { continue };
+        if kind == "put" {
+            all_ids.push(id);
+        }
+        let got = if inside {
+            *sl.mail.borrow_mut() = Some((kind.clone(), key, id));
+            *sl.reply.borrow_mut() = None;
+            sl.started = true;
+            if co.resume().is_err() {
+                fail("resume-refused", format!("op {oi}: resume refused"));
+            }
+            let Some(r) = sl.reply.borrow_mut().take() else {
+                fail("local-op-lost", format!("op {oi}: the body did not execute the operation"));
+            };
+            r
+        } else {
+            do_op(co, &kind, key, id)
+        };
+        // model
+        let exp = match kind.as_str() {
+            "put" => sl.model.insert(key, (id, 0)).map_or((None, None), |(i, t)| {
+                _ = expect_dropped.insert(i);
+                (Some(i), Some(t))
+            }),
+            "get" => sl.model.get(&key).map_or((None, None), |(i, t)| (Some(*i), Some(*t))),
+            "get_mut" => sl.model.get_mut(&key).map_or((None, None), |e| {
+                e.1 += 1;
+                (Some(e.0), Some(e.1))
+            }),
+            _ => sl.model.remove(&key).map_or((None, None), |(i, t)| {
+                _ = expect_dropped.insert(i);
+                (Some(i), Some(t))
+            }),
+        };
+        if got != exp {
+            fail("local-map-semantics", format!("op {oi}: {kind}({}) on coroutine {ci} returned (id,tag) {got:?}, the map model says {exp:?}", KEYS[key]));
+        }
+        // privacy: the other coroutines see their own contents only
+        for (cj, other) in slots.iter().enumerate() {
+            if cj == ci {
+                continue;
+            }
+            if let Some(oc) = other.co.as_ref() {
+                let seen = oc.get::<Val>(KEYS[key]).map(|v| v.id);
+                let want = other.model.get(&key).map(|e| e.0);
+                if seen != want {
+                    fail("local-not-private", format!("op {oi}: after {kind}({}) on coroutine {ci}, coroutine {cj} sees {seen:?} under that key, expected {want:?}", KEYS[key]));
+                }
+            }
+        }
+    }
+    // drop everything that is left
+    for sl in &mut slots {
+        if let Some(co) = sl.co.take() {
+            for (_, (id, _)) in std::mem::take(&mut sl.model) {
+                _ = expect_dropped.insert(id);
+            }
+            drop(co);
+        }
+    }
+    let d = DROPS.with(|d| d.borrow().clone());
+    for id in &all_ids {
+        let n = d.get(id).copied().unwrap_or(0);
+        if n > 1 {
+            fail("double-drop", format!("value {id} dropped {n} times"));
+        }
+        if expect_dropped.contains(id) && n == 0 {
+            fail("not-released", format!("value {id} was still stored when its coroutine was dropped, and was never dropped"));
+        }
+    }
+    note("values", all_ids.len());
+}
